@@ -1,6 +1,8 @@
 // h_seq.cpp - C03: List / Array / PoolList against a plain reference sequence; List::sort
 // modes: list, array, plist (swarm random histories), array-grow (directed sweep over capacity/size boundaries),
-//        sort-exh (all permutations of n<=N distinct keys + all sequences over 3 keys of length<=8), sort-rand (random lists up to 2000 elements)
+//        sort-exh (all permutations of n<=N distinct keys + all sequences over 3 keys of length<=8), sort-rand (random lists up to 2000 elements),
+//        big (few long cases: List / Array / PoolList grown to 1k..scale elements around powers of two and round decimal numbers, then clear / assignment /
+//        copy / swap / bulk removal / re-insertion phases with one full comparison per phase)
 // Monitors: reference model = array of (key, unique id); after every operation size/isEmpty/front/back, forward and backward iteration, find for every
 // universe key (first match), capacity() >= size(), the returned iterator / reference (insert -> new element, remove -> successor, append -> the new
 // element by address), ==/!= against a second live list; elements carry a tracked Elem (exactly-once construction/destruction per address); ASan/UBSan/LSan.
@@ -84,6 +86,7 @@ struct PoolAcct {
   size_t slots(size_t hdr, size_t bytes) const { size_t t = 0; for (size_t i = 0; i < blk.n; ++i) if (blk[i].size >= hdr) t += (blk[i].size - hdr) / bytes; return t; }
 };
 static long g_sizedWalks = 0; static bool g_slotsPerBlockSeen[65];
+static size_t g_lastFree = 0;   // free items met by the last walk (state class for the counters of the "big" mode, never part of a verdict)
 #endif
 
 static char g_keybuf[220];
@@ -137,14 +140,14 @@ template <class C, class Item, class Block> static void walkLinked(C& c, size_t 
     for (size_t i = 0; i < acct.blk.n; ++i) { size_t per = (acct.blk[i].size - sizeof(Block)) / slotBytes; g_slotsPerBlockSeen[per > 64 ? 64 : per] = true; }
     ++g_sizedWalks;
   }
-  ++g_walks;
+  g_lastFree = nf; ++g_walks;
 }
 #endif
 
 // ================================================================ List
 struct ListCk {
   typedef List<Val> C; typedef C::Iterator It;
-  struct Box { C* c; Model ref; Box() : c(0) {} };
+  struct Box { C* c; Model ref; size_t nfree; Box() : c(0), nfree(0) {} };
 #ifndef VERIF_NO_PRIVATE
   typedef C::Item Item; typedef C::ItemBlock Block;
   PtrSet live, freeSet; PoolAcct acct;
@@ -185,8 +188,19 @@ struct ListCk {
       cnt("finds");
     }
   }
+  // large containers: find for the first, the middle and the last key and for an absent one (each O(size)) instead of for every universe key
+  void findsFew(C& c, const Model& ref) {
+    const C& cc = c; long probes[4]; int np = 0; probes[np++] = -1;
+    if (ref.n) { probes[np++] = ref[0].key; probes[np++] = ref[ref.n / 2].key; probes[np++] = ref[ref.n - 1].key; }
+    for (int j = 0; j < np; ++j) {
+      long k = probes[j]; size_t at = firstKey(ref, k); Val probe(k, -100); It it = cc.find(probe);
+      if (at == npos) { if (it != cc.end()) fail(key("find"), "find(%ld) returned an element although none has that value", k); }
+      else if (it == cc.end() || indexOf(c, it, ref.n) != at) fail(key("find"), "find(%ld) did not return the first match at position %lu", k, (unsigned long)at);
+      cnt("finds");
+    }
+  }
 #ifndef VERIF_NO_PRIVATE
-  void structure(Box& b) { walkLinked<C, Item, Block>(*b.c, b.ref.n, sizeof(Item), live, freeSet, acct); }
+  void structure(Box& b) { walkLinked<C, Item, Block>(*b.c, b.ref.n, sizeof(Item), live, freeSet, acct); b.nfree = g_lastFree; }
 #else
   void structure(Box&) {}   // public API only: no structural walk
 #endif
@@ -349,6 +363,16 @@ struct ArrayCk {
       cnt("finds");
     }
   }
+  void findsFew(Box& b) {   // large arrays: first / middle / last key and an absent one
+    const C& cc = *b.c; const Model& ref = b.ref; long probes[4]; int np = 0; probes[np++] = -1;
+    if (ref.n) { probes[np++] = ref[0].key; probes[np++] = ref[ref.n / 2].key; probes[np++] = ref[ref.n - 1].key; }
+    for (int j = 0; j < np; ++j) {
+      long k = probes[j]; size_t at = firstKey(ref, k); Val probe(k, -100); It it = cc.find(probe);
+      if (at == npos) { if (it != cc.end()) fail(key("find"), "find(%ld) returned an element although none has that value", k); }
+      else if (it != iterAt(*b.c, at)) fail(key("find"), "find(%ld) did not return the first match at position %lu", k, (unsigned long)at);
+      cnt("finds");
+    }
+  }
   #ifndef VERIF_NO_PRIVATE
   void all(Box& b, int universe) { contents(b); finds(b, universe); ++g_walks; }
 #else
@@ -500,7 +524,7 @@ static void arrayGrow() {
 struct PEnt { long uid; int nargs; };
 struct PoolCk {
   typedef PoolList<PT> C; typedef C::Iterator It;
-  struct Box { C* c; Vec<PEnt> ref; Box() : c(0) {} };
+  struct Box { C* c; Vec<PEnt> ref; size_t nfree; Box() : c(0), nfree(0) {} };
 #ifndef VERIF_NO_PRIVATE
   typedef C::Item Item; typedef C::ItemBlock Block;
   PtrSet live, freeSet; PoolAcct acct;
@@ -523,19 +547,24 @@ struct PoolCk {
     else if (cc.begin() != cc.end()) fail(key("iteration"), "begin() != end() on an empty list");
 #ifndef VERIF_NO_PRIVATE
     walkLinked<C, Item, Block>(c, ref.n, sizeof(Item) + sizeof(PT), live, freeSet, acct);   // a slot = the link header followed by the element
+    b.nfree = g_lastFree;
 #endif
     cnt("elements_compared", (long)ref.n * 2);
   }
   void opAppend(Box& b, int nargs, long uid) {
     setctxf("PoolList.append/%d-args", nargs); hist.addf("append(#%ld with %d args)\n", uid, nargs); { char t[8]; snprintf(t, sizeof t, "%d", nargs); setItem("append_arities", t); }
-    C& c = *b.c; PT* r; long u = uid, x = uid * 10;
-    switch (nargs) { case 0: r = &c.append(); break; case 1: r = &c.append(u); break; case 2: r = &c.append(u, x + 1); break; case 3: r = &c.append(u, x + 1, x + 2); break; case 4: r = &c.append(u, x + 1, x + 2, x + 3); break;
-      case 5: r = &c.append(u, x + 1, x + 2, x + 3, x + 4); break; case 6: r = &c.append(u, x + 1, x + 2, x + 3, x + 4, x + 5); break; default: r = &c.append(u, x + 1, x + 2, x + 3, x + 4, x + 5, x + 6); break; }
+    C& c = *b.c; PT* r = construct(c, nargs, uid);
     if (nargs == 0) { if (r->uid != -1 || r->nargs != 0) fail(key("returned-reference"), "append() did not return a default constructed element"); r->uid = uid; }
     PEnt e = { uid, nargs }; b.ref.push(e);
     if (c.size() != b.ref.n) fail(key("size"), "size() %lu, model %lu", (unsigned long)c.size(), (unsigned long)b.ref.n);
     It last = c.end(); --last; if (&*last != r || r->uid != uid) fail(key("returned-reference"), "append did not return the new last element");
     cnt("op_append");
+  }
+  static PT* construct(C& c, int nargs, long uid) {
+    PT* r; long u = uid, x = uid * 10;
+    switch (nargs) { case 0: r = &c.append(); break; case 1: r = &c.append(u); break; case 2: r = &c.append(u, x + 1); break; case 3: r = &c.append(u, x + 1, x + 2); break; case 4: r = &c.append(u, x + 1, x + 2, x + 3); break;
+      case 5: r = &c.append(u, x + 1, x + 2, x + 3, x + 4); break; case 6: r = &c.append(u, x + 1, x + 2, x + 3, x + 4, x + 5); break; default: r = &c.append(u, x + 1, x + 2, x + 3, x + 4, x + 5, x + 6); break; }
+    return r;
   }
   void opRemoveIt(Box& b, size_t idx) { setctxf("PoolList.remove(iterator)/%s", idx == 0 ? "first" : idx + 1 == b.ref.n ? "last" : "middle"); hist.addf("remove(iterator #%lu)\n", (unsigned long)idx); It it = iterAt(*b.c, idx); It r = b.c->remove(it); b.ref.removeAt(idx); if (b.c->size() != b.ref.n) fail(key("size"), "size() %lu, model %lu", (unsigned long)b.c->size(), (unsigned long)b.ref.n); size_t ri = indexOf(*b.c, r, b.ref.n); if (ri != idx) fail(key("returned-iterator"), "remove returned the iterator at position %ld, expected the successor at %lu", (long)ri, (unsigned long)idx); cnt("op_remove_it"); }
   void opRemoveRef(Box& b, size_t idx) { setctxf("PoolList.remove(element)/%s", idx == 0 ? "first" : idx + 1 == b.ref.n ? "last" : "middle"); hist.addf("remove(element reference #%lu)\n", (unsigned long)idx); It it = iterAt(*b.c, idx); PT& e = *it; b.c->remove(e); b.ref.removeAt(idx); cnt("op_remove_ref"); }
@@ -576,6 +605,401 @@ static void poolHistory(PoolCk& ck, Rng& r, long idx) {
   statMax("max_size", (long)maxn);
   if (idx % 401 == 0) sample("%.1200s", hist.c());
   endCase(fp, maxn >= 2 && removed);
+}
+
+// ================================================================ large containers (mode "big")
+// Few, long cases. One container of the case's type is grown to a size n in about 1k..opts.scale that is chosen around powers of two and round decimal
+// numbers (+- a few) or log-uniformly, and is then taken through phases: clear + refill, assignment onto / from it, copy construction, swap, bulk removal
+// (every k-th element through one iterator walk, many from an end, by value / index), re-insertion, insertion of a whole container, resize / reserve, sort.
+// Bulk operations write one history line and are followed by one full comparison (contents forward and backward, structural walk, a few finds), so an
+// element costs a constant number of visits per phase. Nothing here knows a threshold of the library: "large" (>= 1000) only names counters and contexts.
+static const size_t LARGE = 1000;
+static int cmpEnt(const void* a, const void* b) { const SEnt* x = (const SEnt*)a; const SEnt* y = (const SEnt*)b; return x->key != y->key ? (x->key < y->key ? -1 : 1) : x->uid != y->uid ? (x->uid < y->uid ? -1 : 1) : 0; }
+template <class E> static void spliceInto(Vec<E>& m, size_t at, const Vec<E>& ins, bool reversed) {
+  Vec<E> out; for (size_t i = 0; i < at; ++i) out.push(m[i]);
+  if (reversed) for (size_t i = ins.n; i-- > 0;) out.push(ins[i]); else for (size_t i = 0; i < ins.n; ++i) out.push(ins[i]);
+  for (size_t i = at; i < m.n; ++i) out.push(m[i]);
+  m.swap(out);
+}
+template <class E> static void dropFront(Vec<E>& m, size_t count) { Vec<E> out; for (size_t i = count; i < m.n; ++i) out.push(m[i]); m.swap(out); }
+
+struct BigGen {
+  Rng& r; long maxN; long U; u64 salt; long uid; u64 fp; size_t maxn; bool removed; const char* sizeCls;
+  BigGen(Rng& rr, long mx) : r(rr), maxN(mx < 2048 ? 2048 : mx), uid(1), fp(17), maxn(0), removed(false), sizeCls("") { U = r.chance(1, 3) ? r.range(2, 40) : (1L << 40); salt = r.next(); }
+  long keyOf(long u) const { return (long)(mix(salt, (u64)u) % (u64)U); }
+  bool distinctKeys() const { return U > 1000; }
+  int octaves() const { int top = 0; while ((2048L << top) <= maxN) ++top; return top; }   // 1024 << e <= maxN for e in [0, top]
+  size_t pickSize() {
+    int top = octaves();
+    switch (r.below(8)) {
+    case 0: case 1: case 2: case 3: { int e = (int)r.below((u64)top + 1), e2 = (int)r.below((u64)top + 1); if (e2 < e) e = e2;   // smaller sizes more often (cost)
+        static const int d[] = { -3, -2, -1, 0, 1, 2, 3, 5, 6, 7 }; sizeCls = "power-of-two+-"; return (size_t)((1024L << e) + d[r.below(10)]); }
+    case 4: case 5: { static const long dec[] = { 1000, 1500, 2000, 2500, 3000, 4000, 5000, 8000, 10000, 16000, 20000, 30000, 50000, 100000 }; int k = 0; while (k + 1 < 14 && dec[k + 1] <= maxN) ++k;
+        int e = (int)r.below((u64)k + 1), e2 = (int)r.below((u64)k + 1); if (e2 < e) e = e2; sizeCls = "round-decimal+-"; return (size_t)(dec[e] + r.range(-1, 3)); }
+    default: { long lo = 1024L << r.below((u64)top + 1), hi = lo * 2 > maxN ? maxN : lo * 2; if (hi <= lo) hi = lo + 1; sizeCls = "random"; return (size_t)r.range(lo + 1, hi); }
+    }
+  }
+  // how many elements a follow-up insertion / removal touches: mostly 1..9 (block and capacity remainders), sometimes a fraction, all, or one more than n
+  size_t fewOrMany(size_t n) { switch (r.below(7)) { case 0: return n / 2 + 1; case 1: return n ? n : 1; case 2: return n + 1; case 3: return n / 3 + 1; default: return (size_t)r.range(1, 9); } }
+  void note(u64 kind, size_t n) { fp = mix(fp, kind * 1000003ULL + (u64)n); }
+  void seen(size_t n) { if (n > maxn) maxn = n; }
+};
+
+// ---------------------------------------------------------------- big List
+struct BigList {
+  typedef ListCk::Box Box; typedef ListCk::C C; typedef ListCk::It It;
+  ListCk& ck; BigGen& g; bool sorted;
+  BigList(ListCk& c, BigGen& gg) : ck(c), g(gg), sorted(false) {}
+  void check(Box& b) { ck.contents(*b.c, b.ref); ck.structure(b); ck.findsFew(*b.c, b.ref); g.seen(b.ref.n); cnt("big_checks"); cnt("big_elements_checked", (long)b.ref.n); if (b.ref.n >= LARGE) cnt("big_checks_large"); }
+  // where: 0 append, 1 prepend, 2 insert before one fixed (random) position
+  void add(Box& b, size_t count, int where, const char* why) {
+    static const char* wn[] = { "append", "prepend", "insert/pos=middle" };
+    C& c = *b.c; size_t n0 = b.ref.n; size_t lim = 2 * (size_t)g.maxN + 16; if (n0 >= lim) count %= 10; else if (n0 + count > lim) count = lim - n0;
+    setctxf("List.%s/large/%s", wn[where], why);
+    hist.addf("%s x %lu  (#%ld.., key = mix(salt, uid) %% %ld; %s)   [size %lu]\n", wn[where], (unsigned long)count, g.uid, g.U, why, (unsigned long)n0);
+    Model ins;
+    if (where == 0) for (size_t i = 0; i < count; ++i) { long u = g.uid++, k = g.keyOf(u); Val v(k, u); Val& rr = c.append(v); if (&rr != &c.back() || rr.uid != u) fail(key("returned-reference"), "append did not return the new last element (element %lu of the run)", (unsigned long)i); SEnt e = { k, u }; b.ref.push(e); }
+    else if (where == 1) { for (size_t i = 0; i < count; ++i) { long u = g.uid++, k = g.keyOf(u); Val v(k, u); Val& rr = c.prepend(v); if (&rr != &c.front() || rr.uid != u) fail(key("returned-reference"), "prepend did not return the new first element (element %lu of the run)", (unsigned long)i); SEnt e = { k, u }; ins.push(e); } spliceInto(b.ref, 0, ins, true); }
+    else { size_t at = (size_t)g.r.below((u64)n0 + 1); hist.addf("  position #%lu\n", (unsigned long)at); It pos = ck.iterAt(c, at);
+      for (size_t i = 0; i < count; ++i) { long u = g.uid++, k = g.keyOf(u); Val v(k, u); It it = c.insert(pos, v); if (it == c.end() || (*it).uid != u) fail(key("returned-iterator"), "insert did not return the new element (element %lu of the run)", (unsigned long)i); It nx = it; ++nx; if (nx != pos) fail(key("returned-iterator"), "the element insert returned is not the one in front of the position (element %lu of the run)", (unsigned long)i); SEnt e = { k, u }; ins.push(e); }
+      spliceInto(b.ref, at, ins, false); }
+    if (c.size() != b.ref.n) fail(key("size"), "size() %lu, model %lu", (unsigned long)c.size(), (unsigned long)b.ref.n);
+    g.note(1 + (u64)where, count); cnt("big_inserted", (long)count); if (n0 + count >= LARGE) cnt("big_inserted_large", (long)count);
+  }
+  void removeEvery(Box& b, size_t step, size_t offset, size_t cap) {
+    C& c = *b.c; size_t n0 = b.ref.n, done = 0; if (step < 1) step = 1; offset %= step; setctx("List.remove(iterator)/large/bulk");
+    hist.addf("remove every %lu-th element from #%lu on, at most %lu, through one iterator walk   [size %lu]\n", (unsigned long)step, (unsigned long)offset, (unsigned long)cap, (unsigned long)n0);
+    Model out; It it = c.begin();
+    for (size_t i = 0; i < n0; ++i) {
+      if (it == c.end()) fail(key("iteration"), "iteration ends after %lu of %lu elements", (unsigned long)i, (unsigned long)n0);
+      if (i % step == offset && done < cap) {
+        if ((*it).uid != b.ref[i].uid) fail(key("iteration"), "position %lu holds #%ld, model #%ld", (unsigned long)i, (*it).uid, b.ref[i].uid);
+        It nx = c.remove(it);
+        if (i + 1 < n0 ? (nx == c.end() || (*nx).uid != b.ref[i + 1].uid) : nx != c.end()) fail(key("returned-iterator"), "remove did not return the successor of the removed element (original position %lu of %lu)", (unsigned long)i, (unsigned long)n0);
+        it = nx; ++done;
+      } else { out.push(b.ref[i]); ++it; }
+    }
+    b.ref.swap(out); if (c.size() != b.ref.n) fail(key("size"), "size() %lu, model %lu", (unsigned long)c.size(), (unsigned long)b.ref.n);
+    if (done) g.removed = true; g.note(5, done); cnt("big_removed", (long)done); if (n0 >= LARGE) cnt("big_bulk_removals_large");
+  }
+  void removeEnds(Box& b, size_t count, bool front) {
+    C& c = *b.c; size_t n0 = b.ref.n; if (count > n0) count = n0; setctx(front ? "List.removeFront/large/bulk" : "List.removeBack/large/bulk");
+    hist.addf("%s x %lu   [size %lu]\n", front ? "removeFront" : "removeBack", (unsigned long)count, (unsigned long)n0);
+    for (size_t i = 0; i < count; ++i) { It rr = front ? c.removeFront() : c.removeBack(); if (front ? rr != c.begin() : rr != c.end()) fail(key("returned-iterator"), front ? "removeFront did not return begin()" : "removeBack did not return end()"); }
+    if (front) dropFront(b.ref, count); else for (size_t i = 0; i < count; ++i) b.ref.pop();
+    if (c.size() != b.ref.n) fail(key("size"), "size() %lu, model %lu", (unsigned long)c.size(), (unsigned long)b.ref.n);
+    if (count) g.removed = true; g.note(6, count); cnt("big_removed", (long)count); if (n0 >= LARGE) cnt("big_bulk_removals_large");
+  }
+  void removeValues(Box& b, int count) {
+    for (int j = 0; j < count && b.ref.n; ++j) { long k = j == 1 ? -1 : b.ref[g.r.below(b.ref.n)].key; size_t at = firstKey(b.ref, k); setctxf("List.remove(value)/large/%s", at == npos ? "absent" : "present"); hist.addf("remove(value %ld)   [size %lu]\n", k, (unsigned long)b.ref.n); Val v(k, -100); b.c->remove(v); if (at != npos) { b.ref.removeAt(at); g.removed = true; cnt("big_removed"); } }
+    g.note(7, (size_t)count);
+  }
+  void clear(Box& b) { size_t n0 = b.ref.n; setctxf("List.clear/%s", n0 >= LARGE ? "large" : n0 ? "non-empty" : "empty"); hist.addf("clear   [size %lu]\n", (unsigned long)n0); b.c->clear(); b.ref.clear(); g.note(8, n0); if (n0 >= LARGE) { cnt("big_clear_large"); if (b.nfree) cnt("big_clear_large_with_free_items"); } }
+  void assign(Box& dst, Box& src) {
+    size_t nd = dst.ref.n, ns = src.ref.n; setctxf("List.operator=/%s/onto-%s/from-%s", nd >= LARGE || ns >= LARGE ? "large" : "small", nd >= LARGE ? "large" : nd ? "non-empty" : "empty", ns >= LARGE ? "large" : ns ? "non-empty" : "empty");
+    setItem("big_assign_classes", (const char*)ctx + 15); hist.addf("assignment: list of %lu := list of %lu\n", (unsigned long)nd, (unsigned long)ns);
+    *dst.c = *src.c; dst.ref = src.ref; g.note(9, nd * 31 + ns); if (nd >= LARGE) { cnt("big_assign_onto_large"); if (dst.nfree) cnt("big_assign_onto_large_with_free_items"); } if (ns >= LARGE) cnt("big_assign_from_large");
+  }
+  // bring the second list into a random size class
+  void prepOther(Box& o) {
+    switch (g.r.below(4)) {
+    case 0: hist.add("other: as it is\n"); break;
+    case 1: hist.add("other: destroyed and constructed afresh\n"); setctx("List.destructor"); delete o.c; setctx("List.constructor"); o.c = new C; o.ref.clear(); o.nfree = 0; break;
+    case 2: hist.add("other: cleared, a few elements\n"); clear(o); add(o, (size_t)g.r.range(0, 9), (int)g.r.below(2), "other"); break;
+    default: { size_t want = g.pickSize(); hist.addf("other: brought to %lu elements\n", (unsigned long)want); if (o.ref.n > want) removeEnds(o, o.ref.n - want, g.r.chance(1, 2)); else if (o.ref.n < want) add(o, want - o.ref.n, (int)g.r.below(3), "other"); break; }
+    }
+    check(o);
+  }
+  void build(Box& b, size_t N) {
+    switch (g.r.below(6)) {
+    case 0: hist.add("build: appends only\n"); add(b, N, 0, "build"); break;
+    case 1: hist.add("build: runs of append / prepend / insert before a position\n"); while (b.ref.n < N) { size_t left = N - b.ref.n, ch = (size_t)g.r.range(1, (long)(N / 3 + 1)); add(b, ch < left ? ch : left, (int)g.r.below(3), "build"); } break;
+    case 2: { size_t extra = (size_t)g.r.range(1, 9); hist.addf("build: %lu more than the target, then the surplus removed\n", (unsigned long)extra); add(b, N + extra, 0, "build"); if (g.r.chance(1, 2)) removeEnds(b, extra, g.r.chance(1, 2)); else removeEvery(b, (N + extra) / extra, g.r.below(7), extra); if (b.ref.n > N) removeEnds(b, b.ref.n - N, false); break; }
+    case 3: hist.add("build: grown and thinned out alternately\n"); for (int round = 0; round < 6 && b.ref.n < N; ++round) { size_t left = N - b.ref.n, ch = (size_t)g.r.range(1, (long)(N / 2 + 1)); add(b, ch < left ? ch : left, (int)g.r.below(3), "build"); if (b.ref.n < N && b.ref.n > 8) removeEvery(b, (size_t)g.r.range(2, 9), g.r.below(9), b.ref.n / 4); } if (b.ref.n < N) add(b, N - b.ref.n, (int)g.r.below(3), "build"); break;
+    case 4: { hist.add("build: copy of a temporary list\n"); Box t; setctx("List.constructor"); t.c = new C; add(t, N, 0, "build"); check(t); setctx("List.destructor"); delete b.c; setctx("List.copy-construct/large"); hist.add("copy-construct\n"); b.c = new C(*t.c); b.ref = t.ref; check(b); setctx("List.destructor"); delete t.c; cnt("big_copy_large"); break; }
+    default: { hist.add("build: assignment of a temporary list onto a small one\n"); Box t; setctx("List.constructor"); t.c = new C; add(t, N, (int)g.r.below(2), "build"); add(b, (size_t)g.r.range(0, 9), 0, "build"); check(b); assign(b, t); check(b); check(t); setctx("List.destructor"); delete t.c; break; }
+    }
+    if (b.ref.n != N) harnessBug("big List build reached %lu instead of %lu", (unsigned long)b.ref.n, (unsigned long)N);
+  }
+  void insertList(Box& b, Box& o) {
+    int how = (int)g.r.below(3); size_t n0 = b.ref.n, at = how == 0 ? n0 : how == 1 ? 0 : (size_t)g.r.below((u64)n0 + 1); C& c = *b.c;
+    setctxf("List.%s(list)/large/%s", how == 0 ? "append" : how == 1 ? "prepend" : "insert", o.ref.n ? "non-empty" : "empty");
+    hist.addf("%s(other list of %lu) at #%lu   [size %lu]\n", how == 0 ? "append" : how == 1 ? "prepend" : "insert", (unsigned long)o.ref.n, (unsigned long)at, (unsigned long)n0);
+    if (how == 0) c.append(*o.c); else if (how == 1) c.prepend(*o.c);
+    else { It pos = ck.iterAt(c, at); It rr = c.insert(pos, *o.c); size_t ri = ck.indexOf(c, rr, n0 + o.ref.n); if (ri != at) fail(key("returned-iterator"), "insert(list) returned the iterator at position %ld, expected %lu (first inserted element, or the position itself for an empty list)", (long)ri, (unsigned long)at); }
+    spliceInto(b.ref, at, o.ref, false); g.note(10 + (u64)how, o.ref.n); cnt("big_insert_list"); cnt("op_insert_list");
+  }
+  void sortLarge(Box& b) {
+    C& c = *b.c; setctx("List.sort/large"); hist.addf("sort   [%lu elements]\n", (unsigned long)b.ref.n);
+    Model before(b.ref); cpuBudget(120, "List.sort/nonterminating"); long lt0 = g_lt; c.sort(); cnt("sort_comparisons", g_lt - lt0); cpuBudget(0, 0);
+    if (c.size() != before.n) fail(key("size"), "size() %lu after sort, was %lu", (unsigned long)c.size(), (unsigned long)before.n);
+    Model after; size_t i = 0;
+    for (It it = c.begin(), e = c.end(); it != e; ++it, ++i) { if (i >= before.n) fail(key("iteration"), "iteration after sort yields more than %lu elements", (unsigned long)before.n); SEnt en = { (*it).key, (*it).uid }; if ((*it).guard.id != en.uid) fail(key("element"), "element #%ld carries guard #%ld after sort (half-copied value)", en.uid, (*it).guard.id); after.push(en); }
+    if (after.n != before.n) fail(key("iteration"), "iteration after sort yields %lu elements, before %lu", (unsigned long)after.n, (unsigned long)before.n);
+    for (size_t j = 1; j < after.n; ++j) if (after[j].key < after[j - 1].key) fail(key("order"), "not ascending after sort: position %lu holds %ld, position %lu holds %ld", (unsigned long)(j - 1), after[j - 1].key, (unsigned long)j, after[j].key);
+    Model s(after); if (before.n > 1) { qsort(before.d, before.n, sizeof(SEnt), cmpEnt); qsort(s.d, s.n, sizeof(SEnt), cmpEnt); }
+    for (size_t j = 0; j < s.n; ++j) if (s[j].key != before[j].key || s[j].uid != before[j].uid) fail(key("permutation"), "the elements after sort are not the elements before: (%ld,#%ld) vs (%ld,#%ld) at rank %lu of the (key, id) order: an element was lost or duplicated", s[j].key, s[j].uid, before[j].key, before[j].uid, (unsigned long)j);
+    b.ref.swap(after); sorted = true; g.note(13, before.n); cnt("op_sort"); cnt("sorted_elements", (long)before.n); cnt("big_sort");
+  }
+};
+
+static void bigListCase(ListCk& ck, Rng& r, long maxN) {
+  typedef BigList::Box Box; typedef BigList::C C;
+  BigGen g(r, maxN); BigList L(ck, g);
+  Box A, B; setctx("List.constructor"); A.c = new C; B.c = new C;
+  size_t N = g.pickSize(); setItem("big_size_classes", g.sizeCls);
+  hist.addf("# big List: target size %lu (%s), keys below %ld\n", (unsigned long)N, g.sizeCls, g.U);
+  L.check(A); L.check(B); L.build(A, N); L.check(A);
+  int nph = (int)r.range(5, 9);
+  for (int ph = 0; ph < nph; ++ph) {
+    Box& m = A; Box& o = B;
+    if (m.ref.n < LARGE) { size_t want = g.pickSize(); hist.addf("regrow to %lu\n", (unsigned long)want); L.add(m, want - m.ref.n, (int)r.below(3), "regrow"); L.check(m); }
+    size_t n = m.ref.n; int kind = (int)r.below(11); setItem("big_phase_kinds_list", kind == 0 ? "clear+refill" : kind == 1 ? "assign-onto" : kind == 2 ? "assign-from" : kind == 3 ? "copy-construct" : kind == 4 ? "swap" : kind == 5 ? "remove-every-kth" : kind == 6 ? "remove-ends" : kind == 7 ? "insert" : kind == 8 ? "insert-list" : kind == 9 ? "sort" : "remove-value");
+    switch (kind) {
+    case 0: L.clear(m); L.check(m); L.add(m, g.fewOrMany(n), (int)r.below(3), "after-clear"); cnt("big_refill_after_clear"); break;
+    case 1: L.prepOther(o); L.assign(m, o); L.check(m); L.check(o); L.add(m, g.fewOrMany(m.ref.n), (int)r.below(3), "after-assign"); if (r.chance(1, 2)) { L.check(m); L.removeEnds(o, (size_t)r.range(0, 3), true); L.add(o, (size_t)r.range(1, 5), 0, "after-assign"); } break;
+    case 2: L.prepOther(o); L.assign(o, m); L.check(o); L.check(m); L.add(o, g.fewOrMany(o.ref.n), (int)r.below(3), "after-assign"); if (r.chance(1, 2)) L.removeEvery(o, (size_t)r.range(2, 7), 0, o.ref.n); break;
+    case 3: { setctx("List.copy-construct/large"); hist.addf("copy-construct from a list of %lu; mutate the copy; destroy it\n", (unsigned long)n); Box cp; cp.c = new C(*m.c); cp.ref = m.ref; L.check(cp); ck.equality(cp, m); cnt("big_copy_large");
+        if (r.chance(1, 2)) { L.clear(cp); L.check(cp); } else L.removeEvery(cp, (size_t)r.range(2, 5), 0, cp.ref.n);
+        L.add(cp, g.fewOrMany(cp.ref.n), (int)r.below(3), "after-copy"); L.check(cp); L.check(m); setctx("List.destructor"); delete cp.c; break; }
+    case 4: { L.prepOther(o); setctxf("List.swap/large/%s", o.ref.n >= LARGE ? "with-large" : o.ref.n ? "with-nonempty" : "with-empty"); setItem("big_swap_classes", (const char*)ctx + 16); hist.addf("swap(other)  [sizes %lu/%lu]\n", (unsigned long)n, (unsigned long)o.ref.n);
+        m.c->swap(*o.c); m.ref.swap(o.ref); { size_t t = m.nfree; m.nfree = o.nfree; o.nfree = t; } cnt("big_swap_large"); cnt("op_swap"); L.check(m); L.check(o);
+        L.add(m, (size_t)r.range(1, 9), (int)r.below(3), "after-swap"); L.add(o, (size_t)r.range(1, 9), (int)r.below(3), "after-swap"); L.removeEnds(m, (size_t)r.range(0, 3), r.chance(1, 2)); L.removeEnds(o, (size_t)r.range(0, 3), r.chance(1, 2));
+        if (m.ref.n < o.ref.n && r.chance(2, 3)) { L.check(m); L.check(o); hist.add("swap back\n"); setctx("List.swap/large/back"); m.c->swap(*o.c); m.ref.swap(o.ref); { size_t t = m.nfree; m.nfree = o.nfree; o.nfree = t; } cnt("op_swap"); } break; }
+    case 5: { size_t step = r.chance(1, 4) ? n / 7 + 1 : (size_t)r.range(1, 7); size_t cap = r.chance(1, 3) ? (size_t)r.range(1, 12) : r.chance(1, 2) ? n / 2 : n; L.removeEvery(m, step, (size_t)r.below(step), cap); L.check(m); L.add(m, g.fewOrMany(n - m.ref.n), (int)r.below(3), "after-removal"); break; }
+    case 6: { size_t c2; switch (r.below(5)) { case 0: c2 = n; break; case 1: c2 = n - 1; break; case 2: c2 = n / 2; break; default: c2 = (size_t)r.range(1, 9); break; } L.removeEnds(m, c2, r.chance(1, 2)); L.check(m); L.add(m, g.fewOrMany(c2), (int)r.below(3), "after-removal"); break; }
+    case 7: if (n <= (size_t)maxN) L.add(m, g.fewOrMany(n), (int)r.below(3), "growth"); break;
+    case 8: L.prepOther(o); if (n + o.ref.n <= 2 * (size_t)maxN + 16) L.insertList(m, o); break;
+    case 9: if (g.distinctKeys() && !L.sorted) L.sortLarge(m); else L.removeValues(m, 2); break;
+    default: L.removeValues(m, (int)r.range(1, 4)); break;
+    }
+    L.check(A); L.check(B); ck.equality(A, B); cnt("ops"); cnt("big_phases");
+  }
+  setctx("List.destructor"); hist.add("destroy both\n"); delete A.c; delete B.c;
+  setctx("List/case-end"); ElemReg::checkBalanced("List");
+  statMax("max_size", (long)g.maxn); statMax("big_max_size_list", (long)g.maxn);
+  endCase(g.fp, g.maxn >= LARGE && g.removed);
+}
+
+// ---------------------------------------------------------------- big Array
+// Array::reserve may reallocate on every few single appends (no growth factor is promised), so long runs of single appends are only made inside the
+// reserved capacity; beyond it elements arrive as one block, one resize or one append(Array): a bounded number of whole-array relocations per phase.
+struct BigArray {
+  typedef ArrayCk::Box Box; typedef ArrayCk::C C; typedef ArrayCk::It It;
+  ArrayCk& ck; BigGen& g;
+  BigArray(ArrayCk& c, BigGen& gg) : ck(c), g(gg) {}
+  void check(Box& b) {
+    ck.contents(b); ck.findsFew(b);
+    g.seen(b.ref.n); cnt("big_checks"); cnt("big_elements_checked", (long)b.ref.n); if (b.ref.n >= LARGE) cnt("big_checks_large");
+#ifndef VERIF_NO_PRIVATE
+    ++g_walks;
+#endif
+  }
+  void addSingles(Box& b, size_t count, const char* why) {
+    C& c = *b.c; size_t n0 = b.ref.n; setctxf("Array.append/large/%s", why);
+    hist.addf("append x %lu  (#%ld.., key = mix(salt, uid) %% %ld; %s)   [size %lu capacity %lu]\n", (unsigned long)count, g.uid, g.U, why, (unsigned long)n0, (unsigned long)c.capacity());
+    for (size_t i = 0; i < count; ++i) { long u = g.uid++, k = g.keyOf(u); Val v(k, u); Val& rr = c.append(v); if (&rr != &c.back() || rr.uid != u) fail(key("returned-reference"), "append did not return the new last element (element %lu of the run)", (unsigned long)i); SEnt e = { k, u }; b.ref.push(e); }
+    if (c.size() != b.ref.n) fail(key("size"), "size() %lu, model %lu", (unsigned long)c.size(), (unsigned long)b.ref.n);
+    g.note(21, count); cnt("big_inserted", (long)count); if (n0 + count >= LARGE) cnt("big_inserted_large", (long)count);
+  }
+  void addBlock(Box& b, size_t count, const char* why) {
+    C& c = *b.c; size_t n0 = b.ref.n; bool grow = n0 + count > c.capacity() || (!ArrayCk::allocated(c) && count); setctxf("Array.append(T*,n)/large/%s/%s", grow ? "growing" : "in-place", why);
+    hist.addf("append(block of %lu)  (#%ld.., %s)   [size %lu capacity %lu]\n", (unsigned long)count, g.uid, why, (unsigned long)n0, (unsigned long)c.capacity()); if (grow) cnt("growths");
+    Val* blk = (Val*)malloc(count * sizeof(Val) + (count ? 0 : 1));   // exactly-sized: any over-read is an ASan report
+    for (size_t i = 0; i < count; ++i) { long u = g.uid++, k = g.keyOf(u); new ((void*)&blk[i]) Val(k, u); SEnt e = { k, u }; b.ref.push(e); }
+    c.append(blk, count);
+    for (size_t i = 0; i < count; ++i) blk[i].~Val();
+    free(blk); g.note(22, count); cnt("op_append_block"); cnt("big_inserted", (long)count); if (n0 + count >= LARGE) cnt("big_inserted_large", (long)count);
+  }
+  void add(Box& b, size_t count, const char* why) {
+    size_t lim = 2 * (size_t)g.maxN + 16; if (b.ref.n >= lim) count %= 10; else if (b.ref.n + count > lim) count = lim - b.ref.n;
+    if (count <= 10) { for (size_t i = 0; i < count; ++i) { long u = g.uid++; ck.opAppend(b, g.keyOf(u), u); } g.note(20, count); }   // at most a few relocations
+    else if (b.ref.n + count <= b.c->capacity() && ArrayCk::allocated(*b.c) && g.r.chance(1, 2)) addSingles(b, count, why);
+    else addBlock(b, count, why);
+  }
+  void removeBackN(Box& b, size_t count) {
+    C& c = *b.c; size_t n0 = b.ref.n; if (count > n0) count = n0; setctx("Array.removeBack/large/bulk"); hist.addf("removeBack x %lu   [size %lu]\n", (unsigned long)count, (unsigned long)n0);
+    for (size_t i = 0; i < count; ++i) { It rr = c.removeBack(); b.ref.pop(); if (rr != c.end()) fail(key("returned-iterator"), "removeBack did not return end()"); }
+    if (c.size() != b.ref.n) fail(key("size"), "size() %lu, model %lu", (unsigned long)c.size(), (unsigned long)b.ref.n);
+    if (count) g.removed = true; g.note(23, count); cnt("big_removed", (long)count); if (n0 >= LARGE) cnt("big_bulk_removals_large");
+  }
+  void removeFew(Box& b, int count) {   // each one shifts the tail: O(size)
+    for (int j = 0; j < count; ++j) {
+      size_t n = b.ref.n;
+      switch (g.r.below(7)) {
+      case 0: ck.opRemoveIndex(b, 0); break; case 1: ck.opRemoveIndex(b, n ? n - 1 : 0); break; case 2: ck.opRemoveIndex(b, n + g.r.below(3)); break; case 3: ck.opRemoveIndex(b, n ? (size_t)g.r.below(n) : 0); break;
+      case 4: if (n) ck.opRemoveIt(b, (size_t)g.r.below(n)); break; case 5: if (n) ck.opRemoveEnd(b, true); break; default: if (n) ck.opRemoveIt(b, n - 1); break;
+      }
+      if (b.ref.n < n) { g.removed = true; cnt("big_removed"); }
+    }
+    g.note(24, (size_t)count);
+  }
+  void clear(Box& b) { size_t n0 = b.ref.n; setctxf("Array.clear/%s", n0 >= LARGE ? "large" : n0 ? "non-empty" : ArrayCk::allocated(*b.c) ? "empty" : "unallocated"); hist.addf("clear   [size %lu capacity %lu]\n", (unsigned long)n0, (unsigned long)b.c->capacity()); b.c->clear(); b.ref.clear(); g.note(25, n0); if (n0 >= LARGE) cnt("big_clear_large"); }
+  void assign(Box& dst, Box& src) {
+    size_t nd = dst.ref.n, ns = src.ref.n; setctxf("Array.operator=/%s/onto-%s/from-%s", nd >= LARGE || ns >= LARGE ? "large" : "small", !ArrayCk::allocated(*dst.c) ? "unallocated" : nd >= LARGE ? "large" : nd ? "non-empty" : "empty", !ArrayCk::allocated(*src.c) ? "unallocated" : ns >= LARGE ? "large" : ns ? "non-empty" : "empty");
+    setItem("big_assign_classes", (const char*)ctx + 16); hist.addf("assignment: array of %lu (capacity %lu) := array of %lu (capacity %lu)\n", (unsigned long)nd, (unsigned long)dst.c->capacity(), (unsigned long)ns, (unsigned long)src.c->capacity());
+    *dst.c = *src.c; dst.ref = src.ref; g.note(26, nd * 31 + ns); if (nd >= LARGE) cnt("big_assign_onto_large"); if (ns >= LARGE) cnt("big_assign_from_large");
+  }
+  void fresh(Box& o) { setctx("Array.destructor"); delete o.c; setctx("Array.constructor"); if (g.r.chance(1, 2)) { hist.add("new Array()\n"); o.c = new C; o.minCap = 0; } else { usize cap = (usize)(g.r.chance(1, 2) ? g.r.below(21) : g.pickSize()); hist.addf("new Array(%lu)\n", (unsigned long)cap); o.c = new C(cap); o.minCap = cap; if (o.c->capacity() < cap) fail("Array.constructor/capacity", "Array(%lu) reports capacity() %lu", (unsigned long)cap, (unsigned long)o.c->capacity()); } o.ref.clear(); }
+  void prepOther(Box& o) {
+    switch (g.r.below(4)) {
+    case 0: hist.add("other: as it is\n"); break;
+    case 1: hist.add("other: destroyed and constructed afresh: "); fresh(o); break;
+    case 2: hist.add("other: cleared, a few elements\n"); clear(o); add(o, (size_t)g.r.range(0, 9), "other"); break;
+    default: { size_t want = g.pickSize(); hist.addf("other: brought to %lu elements\n", (unsigned long)want); if (o.ref.n > want) removeBackN(o, o.ref.n - want); else if (o.ref.n < want) add(o, want - o.ref.n, "other"); break; }
+    }
+    check(o);
+  }
+  void build(Box& b, size_t N) {
+    switch (g.r.below(7)) {
+    case 0: hist.addf("build: Array(%lu), single appends\n", (unsigned long)N); setctx("Array.destructor"); delete b.c; setctx("Array.constructor"); b.c = new C((usize)N); b.minCap = N; addSingles(b, N, "build"); break;
+    case 1: hist.add("build: reserve, one block\n"); ck.opReserve(b, (usize)N); addBlock(b, N, "build"); break;
+    case 2: { hist.add("build: resize with a value\n"); long u = g.uid++; ck.opResize(b, N, false, g.keyOf(u), u); break; }
+    case 3: { int chunks = (int)g.r.range(2, 6); hist.addf("build: %d blocks\n", chunks); for (int i = 0; i < chunks; ++i) { size_t left = N - b.ref.n, ch = i + 1 == chunks ? left : (size_t)g.r.range(0, (long)left); addBlock(b, ch, "build"); } break; }
+    case 4: { hist.add("build: copy of a temporary array\n"); Box t; setctx("Array.constructor"); t.c = new C((usize)(g.r.chance(1, 2) ? N : N + (size_t)g.r.range(1, 40))); t.minCap = 0; addSingles(t, N, "build"); check(t); setctx("Array.destructor"); delete b.c; setctx("Array.copy-construct/large"); hist.add("copy-construct\n"); b.c = new C(*t.c); b.ref = t.ref; b.minCap = 0; check(b); setctx("Array.destructor"); delete t.c; cnt("big_copy_large"); break; }
+    case 5: { hist.add("build: assignment of a temporary array onto a small one\n"); Box t; setctx("Array.constructor"); t.c = new C; addBlock(t, N, "build"); add(b, (size_t)g.r.range(0, 9), "build"); check(b); assign(b, t); check(b); check(t); setctx("Array.destructor"); delete t.c; break; }
+    default: { size_t below = (size_t)g.r.range(1, 9); hist.addf("build: Array(%lu), single appends across the capacity up to %lu\n", (unsigned long)(N - below), (unsigned long)N); setctx("Array.destructor"); delete b.c; setctx("Array.constructor"); b.c = new C((usize)(N - below)); b.minCap = N - below; addSingles(b, N - below, "build"); check(b); for (size_t i = 0; i < below; ++i) { long u = g.uid++; ck.opAppend(b, g.keyOf(u), u); } break; }
+    }
+    if (b.ref.n != N) harnessBug("big Array build reached %lu instead of %lu", (unsigned long)b.ref.n, (unsigned long)N);
+  }
+};
+
+static void bigArrayCase(ArrayCk& ck, Rng& r, long maxN) {
+  typedef BigArray::Box Box; typedef BigArray::C C;
+  BigGen g(r, maxN); BigArray L(ck, g);
+  Box A, B; setctx("Array.constructor"); A.c = new C; B.c = new C;
+  size_t N = g.pickSize(); setItem("big_size_classes", g.sizeCls);
+  hist.addf("# big Array: target size %lu (%s), keys below %ld\n", (unsigned long)N, g.sizeCls, g.U);
+  L.check(A); L.check(B); L.build(A, N); L.check(A);
+  int nph = (int)r.range(5, 9);
+  for (int ph = 0; ph < nph; ++ph) {
+    Box& m = A; Box& o = B;
+    if (m.ref.n < LARGE) { size_t want = g.pickSize(); hist.addf("regrow to %lu\n", (unsigned long)want); L.add(m, want - m.ref.n, "regrow"); L.check(m); }
+    size_t n = m.ref.n; usize cap = m.c->capacity(); int kind = (int)r.below(11); setItem("big_phase_kinds_array", kind == 0 ? "clear+refill" : kind == 1 ? "assign-onto" : kind == 2 ? "assign-from" : kind == 3 ? "copy-construct" : kind == 4 ? "swap" : kind == 5 ? "remove-few" : kind == 6 ? "remove-back-bulk" : kind == 7 ? "resize" : kind == 8 ? "reserve" : kind == 9 ? "append-array" : "append");
+    switch (kind) {
+    case 0: L.clear(m); L.check(m); L.add(m, g.fewOrMany(n), "after-clear"); cnt("big_refill_after_clear"); break;
+    case 1: L.prepOther(o); L.assign(m, o); L.check(m); L.check(o); L.add(m, g.fewOrMany(m.ref.n), "after-assign"); if (r.chance(1, 2)) { L.check(m); L.removeFew(o, (int)r.range(0, 2)); L.add(o, (size_t)r.range(1, 5), "after-assign"); } break;
+    case 2: L.prepOther(o); L.assign(o, m); L.check(o); L.check(m); L.add(o, g.fewOrMany(o.ref.n), "after-assign"); if (r.chance(1, 2)) L.removeBackN(o, o.ref.n / (size_t)r.range(1, 4)); break;
+    case 3: { setctx("Array.copy-construct/large"); hist.addf("copy-construct from an array of %lu (capacity %lu); mutate the copy; destroy it\n", (unsigned long)n, (unsigned long)cap); Box cp; cp.c = new C(*m.c); cp.ref = m.ref; cp.minCap = 0; L.check(cp); cnt("big_copy_large");
+        if (r.chance(1, 2)) { L.clear(cp); L.check(cp); } else L.removeBackN(cp, cp.ref.n / (size_t)r.range(1, 3));
+        L.add(cp, g.fewOrMany(cp.ref.n), "after-copy"); L.check(cp); L.check(m); setctx("Array.destructor"); delete cp.c; break; }
+    case 4: { L.prepOther(o); setctxf("Array.swap/large/%s", !ArrayCk::allocated(*o.c) ? "with-unallocated" : o.ref.n >= LARGE ? "with-large" : o.ref.n ? "with-nonempty" : "with-empty"); setItem("big_swap_classes", (const char*)ctx + 17); hist.addf("swap(other)  [sizes %lu/%lu]\n", (unsigned long)n, (unsigned long)o.ref.n);
+        m.c->swap(*o.c); m.ref.swap(o.ref); { usize t = m.minCap; m.minCap = o.minCap; o.minCap = t; } cnt("big_swap_large"); cnt("op_swap"); L.check(m); L.check(o);
+        L.add(m, (size_t)r.range(1, 9), "after-swap"); L.add(o, (size_t)r.range(1, 9), "after-swap"); L.removeFew(m, (int)r.range(0, 2)); L.removeFew(o, (int)r.range(0, 2));
+        if (m.ref.n < o.ref.n && r.chance(2, 3)) { L.check(m); L.check(o); hist.add("swap back\n"); setctx("Array.swap/large/back"); m.c->swap(*o.c); m.ref.swap(o.ref); { usize t = m.minCap; m.minCap = o.minCap; o.minCap = t; } cnt("op_swap"); } break; }
+    case 5: L.removeFew(m, (int)r.range(1, 6)); L.check(m); L.add(m, (size_t)r.range(1, 9), "after-removal"); break;
+    case 6: { size_t c2; switch (r.below(5)) { case 0: c2 = n; break; case 1: c2 = n - 1; break; case 2: c2 = n / 2; break; default: c2 = (size_t)r.range(1, 9); break; } L.removeBackN(m, c2); L.check(m); L.add(m, g.fewOrMany(c2), "after-removal"); break; }
+    case 7: { size_t want; switch (r.below(9)) { case 0: want = 0; break; case 1: want = 1; break; case 2: want = n / 2; break; case 3: want = n - 1; break; case 4: want = n; break; case 5: want = n + 1; break; case 6: want = cap; break; case 7: want = cap + 1; break; default: want = n + n / 2; break; }
+        if (want > 2 * (size_t)maxN + 16) want = n; long u = g.uid++; ck.opResize(m, want, r.chance(1, 3), g.keyOf(u), u); if (want < n) g.removed = true; cnt("big_resize_large"); g.note(27, want); L.check(m); L.add(m, (size_t)r.range(1, 9), "after-resize"); break; }
+    case 8: { usize want; switch (r.below(6)) { case 0: want = cap; break; case 1: want = cap + 1; break; case 2: want = cap ? cap - 1 : 0; break; case 3: want = 0; break; case 4: want = (usize)(2 * n); break; default: want = (usize)g.pickSize(); break; } ck.opReserve(m, want); cnt("big_reserve_large"); g.note(28, want); L.check(m); L.add(m, (size_t)r.range(1, 9), "after-reserve"); break; }
+    case 9: L.prepOther(o); if (n + o.ref.n <= 2 * (size_t)maxN + 16) { ck.opAppendArray(m, o); cnt("big_append_array"); g.note(29, o.ref.n); } break;
+    default: if (n <= (size_t)maxN) L.add(m, g.fewOrMany(n), "growth"); break;
+    }
+    L.check(A); L.check(B); cnt("ops"); cnt("big_phases");
+  }
+  setctx("Array.destructor"); hist.add("destroy both\n"); delete A.c; delete B.c;
+  setctx("Array/case-end"); ElemReg::checkBalanced("Array");
+  statMax("max_size", (long)g.maxn); statMax("big_max_size_array", (long)g.maxn);
+  endCase(g.fp, g.maxn >= LARGE && g.removed);
+}
+
+// ---------------------------------------------------------------- big PoolList
+struct BigPool {
+  typedef PoolCk::Box Box; typedef PoolCk::C C; typedef PoolCk::It It;
+  PoolCk& ck; BigGen& g;
+  BigPool(PoolCk& c, BigGen& gg) : ck(c), g(gg) {}
+  void check(Box& b) { ck.all(b); g.seen(b.ref.n); cnt("big_checks"); cnt("big_elements_checked", (long)b.ref.n); if (b.ref.n >= LARGE) cnt("big_checks_large"); }
+  void add(Box& b, size_t count, const char* why) {
+    C& c = *b.c; size_t n0 = b.ref.n; size_t lim = 2 * (size_t)g.maxN + 16; if (n0 >= lim) count %= 10; else if (n0 + count > lim) count = lim - n0;
+    setctxf("PoolList.append/large/%s", why); hist.addf("append x %lu  (#%ld.., #u built from u %% 8 arguments; %s)   [size %lu]\n", (unsigned long)count, g.uid, why, (unsigned long)n0);
+    for (size_t i = 0; i < count; ++i) { long u = g.uid++; int na = (int)(u % 8); PT* p = PoolCk::construct(c, na, u); if (na == 0) { if (p->uid != -1 || p->nargs != 0) fail(key("returned-reference"), "append() did not return a default constructed element"); p->uid = u; } PEnt e = { u, na }; b.ref.push(e); if (p->uid != u) fail(key("returned-reference"), "append returned element #%ld instead of the new #%ld", p->uid, u); }
+    if (c.size() != b.ref.n) fail(key("size"), "size() %lu, model %lu", (unsigned long)c.size(), (unsigned long)b.ref.n);
+    if (count) { It last = c.end(); --last; if ((*last).uid != b.ref[b.ref.n - 1].uid) fail(key("returned-reference"), "the last element is not the one appended last"); }
+    g.note(41, count); cnt("big_inserted", (long)count); if (n0 + count >= LARGE) cnt("big_inserted_large", (long)count);
+  }
+  void removeEvery(Box& b, size_t step, size_t offset, size_t cap, bool byRef) {
+    C& c = *b.c; size_t n0 = b.ref.n, done = 0; if (step < 1) step = 1; offset %= step; setctx(byRef ? "PoolList.remove(element)/large/bulk" : "PoolList.remove(iterator)/large/bulk");
+    hist.addf("remove every %lu-th element from #%lu on, at most %lu, %s, through one iterator walk   [size %lu]\n", (unsigned long)step, (unsigned long)offset, (unsigned long)cap, byRef ? "by element reference" : "by iterator", (unsigned long)n0);
+    Vec<PEnt> out; It it = c.begin();
+    for (size_t i = 0; i < n0; ++i) {
+      if (it == c.end()) fail(key("iteration"), "iteration ends after %lu of %lu elements", (unsigned long)i, (unsigned long)n0);
+      if (i % step == offset && done < cap) {
+        if ((*it).uid != b.ref[i].uid) fail(key("iteration"), "position %lu holds #%ld, model #%ld", (unsigned long)i, (*it).uid, b.ref[i].uid);
+        if (byRef) { It nx = it; ++nx; PT& e = *it; c.remove(e); it = nx; }
+        else { It nx = c.remove(it); if (i + 1 < n0 ? (nx == c.end() || (*nx).uid != b.ref[i + 1].uid) : nx != c.end()) fail(key("returned-iterator"), "remove did not return the successor of the removed element (original position %lu of %lu)", (unsigned long)i, (unsigned long)n0); it = nx; }
+        ++done;
+      } else { out.push(b.ref[i]); ++it; }
+    }
+    b.ref.swap(out); if (c.size() != b.ref.n) fail(key("size"), "size() %lu, model %lu", (unsigned long)c.size(), (unsigned long)b.ref.n);
+    if (done) g.removed = true; g.note(42 + (u64)byRef, done); cnt("big_removed", (long)done); if (n0 >= LARGE) cnt("big_bulk_removals_large");
+  }
+  void removeEnds(Box& b, size_t count, bool front) {
+    C& c = *b.c; size_t n0 = b.ref.n; if (count > n0) count = n0; setctx(front ? "PoolList.removeFront/large/bulk" : "PoolList.removeBack/large/bulk");
+    hist.addf("%s x %lu   [size %lu]\n", front ? "removeFront" : "removeBack", (unsigned long)count, (unsigned long)n0);
+    for (size_t i = 0; i < count; ++i) { It rr = front ? c.removeFront() : c.removeBack(); if (front ? rr != c.begin() : rr != c.end()) fail(key("returned-iterator"), front ? "removeFront did not return begin()" : "removeBack did not return end()"); }
+    if (front) dropFront(b.ref, count); else for (size_t i = 0; i < count; ++i) b.ref.pop();
+    if (c.size() != b.ref.n) fail(key("size"), "size() %lu, model %lu", (unsigned long)c.size(), (unsigned long)b.ref.n);
+    if (count) g.removed = true; g.note(44, count); cnt("big_removed", (long)count); if (n0 >= LARGE) cnt("big_bulk_removals_large");
+  }
+  void clear(Box& b) { size_t n0 = b.ref.n; setctxf("PoolList.clear/%s", n0 >= LARGE ? "large" : n0 ? "non-empty" : "empty"); hist.addf("clear   [size %lu]\n", (unsigned long)n0); b.c->clear(); b.ref.clear(); g.note(45, n0); if (n0 >= LARGE) { cnt("big_clear_large"); if (b.nfree) cnt("big_clear_large_with_free_items"); } }
+  void prepOther(Box& o) {
+    switch (g.r.below(4)) {
+    case 0: hist.add("other: as it is\n"); break;
+    case 1: hist.add("other: destroyed and constructed afresh\n"); setctx("PoolList.destructor"); delete o.c; setctx("PoolList.constructor"); o.c = new C; o.ref.clear(); o.nfree = 0; break;
+    case 2: hist.add("other: cleared, a few elements\n"); clear(o); add(o, (size_t)g.r.range(0, 9), "other"); break;
+    default: { size_t want = g.pickSize(); hist.addf("other: brought to %lu elements\n", (unsigned long)want); if (o.ref.n > want) removeEnds(o, o.ref.n - want, g.r.chance(1, 2)); else if (o.ref.n < want) add(o, want - o.ref.n, "other"); break; }
+    }
+    check(o);
+  }
+  void build(Box& b, size_t N) {
+    switch (g.r.below(3)) {
+    case 0: hist.add("build: appends only\n"); add(b, N, "build"); break;
+    case 1: { size_t extra = (size_t)g.r.range(1, 9); hist.addf("build: %lu more than the target, then the surplus removed\n", (unsigned long)extra); add(b, N + extra, "build"); if (g.r.chance(1, 2)) removeEnds(b, extra, g.r.chance(1, 2)); else removeEvery(b, (N + extra) / extra, g.r.below(7), extra, g.r.chance(1, 2)); if (b.ref.n > N) removeEnds(b, b.ref.n - N, false); break; }
+    default: hist.add("build: grown and thinned out alternately\n"); for (int round = 0; round < 6 && b.ref.n < N; ++round) { size_t left = N - b.ref.n, ch = (size_t)g.r.range(1, (long)(N / 2 + 1)); add(b, ch < left ? ch : left, "build"); if (b.ref.n < N && b.ref.n > 8) removeEvery(b, (size_t)g.r.range(2, 9), g.r.below(9), b.ref.n / 4, g.r.chance(1, 2)); } if (b.ref.n < N) add(b, N - b.ref.n, "build"); break;
+    }
+    if (b.ref.n != N) harnessBug("big PoolList build reached %lu instead of %lu", (unsigned long)b.ref.n, (unsigned long)N);
+  }
+};
+
+static void bigPoolCase(PoolCk& ck, Rng& r, long maxN) {
+  typedef BigPool::Box Box; typedef BigPool::C C;
+  BigGen g(r, maxN); BigPool L(ck, g);
+  Box A, B; setctx("PoolList.constructor"); A.c = new C; B.c = new C;
+  size_t N = g.pickSize(); setItem("big_size_classes", g.sizeCls);
+  hist.addf("# big PoolList: target size %lu (%s)\n", (unsigned long)N, g.sizeCls);
+  L.check(A); L.check(B); L.build(A, N); L.check(A);
+  int nph = (int)r.range(5, 9);
+  for (int ph = 0; ph < nph; ++ph) {
+    Box& m = A; Box& o = B;
+    if (m.ref.n < LARGE) { size_t want = g.pickSize(); hist.addf("regrow to %lu\n", (unsigned long)want); L.add(m, want - m.ref.n, "regrow"); L.check(m); }
+    size_t n = m.ref.n; int kind = (int)r.below(6); setItem("big_phase_kinds_plist", kind == 0 || kind == 1 ? "clear+refill" : kind == 2 ? "swap" : kind == 3 ? "remove-every-kth" : kind == 4 ? "remove-ends" : "append");
+    switch (kind) {
+    case 0: case 1: L.clear(m); L.check(m); L.add(m, g.fewOrMany(n), "after-clear"); cnt("big_refill_after_clear"); break;
+    case 2: { L.prepOther(o); setctxf("PoolList.swap/large/%s", o.ref.n >= LARGE ? "with-large" : o.ref.n ? "with-nonempty" : "with-empty"); setItem("big_swap_classes", (const char*)ctx + 20); hist.addf("swap(other)  [sizes %lu/%lu]\n", (unsigned long)n, (unsigned long)o.ref.n);
+        m.c->swap(*o.c); m.ref.swap(o.ref); { size_t t = m.nfree; m.nfree = o.nfree; o.nfree = t; } cnt("big_swap_large"); cnt("op_swap"); L.check(m); L.check(o);
+        L.add(m, (size_t)r.range(1, 9), "after-swap"); L.add(o, (size_t)r.range(1, 9), "after-swap"); L.removeEnds(m, (size_t)r.range(0, 3), r.chance(1, 2)); L.removeEnds(o, (size_t)r.range(0, 3), r.chance(1, 2));
+        if (m.ref.n < o.ref.n && r.chance(2, 3)) { L.check(m); L.check(o); hist.add("swap back\n"); setctx("PoolList.swap/large/back"); m.c->swap(*o.c); m.ref.swap(o.ref); { size_t t = m.nfree; m.nfree = o.nfree; o.nfree = t; } cnt("op_swap"); } break; }
+    case 3: { size_t step = r.chance(1, 4) ? n / 7 + 1 : (size_t)r.range(1, 7); size_t cap = r.chance(1, 3) ? (size_t)r.range(1, 12) : r.chance(1, 2) ? n / 2 : n; L.removeEvery(m, step, (size_t)r.below(step), cap, r.chance(1, 2)); L.check(m); L.add(m, g.fewOrMany(n - m.ref.n), "after-removal"); break; }
+    case 4: { size_t c2; switch (r.below(5)) { case 0: c2 = n; break; case 1: c2 = n - 1; break; case 2: c2 = n / 2; break; default: c2 = (size_t)r.range(1, 9); break; } L.removeEnds(m, c2, r.chance(1, 2)); L.check(m); L.add(m, g.fewOrMany(c2), "after-removal"); break; }
+    default: if (n <= (size_t)maxN) L.add(m, g.fewOrMany(n), "growth"); break;
+    }
+    L.check(A); L.check(B); cnt("ops"); cnt("big_phases");
+  }
+  setctx("PoolList.destructor"); hist.add("destroy both\n"); delete A.c; delete B.c;
+  setctx("PoolList/case-end"); ElemReg::checkBalanced("PoolList");
+  statMax("max_size", (long)g.maxn); statMax("big_max_size_plist", (long)g.maxn);
+  endCase(g.fp, g.maxn >= LARGE && g.removed);
+}
+
+// case idx: container type idx % 3; a replay re-executes exactly that case (--mode big --seed S --start idx --cases 1 --scale <max size>)
+static void bigHistories() {
+  ListCk lck; ArrayCk ack; PoolCk pck; long maxN = opts.scale > 1 ? opts.scale : 20000;
+  for (long idx = opts.start; idx < opts.start + opts.cases; ++idx) {
+    if (!mine(idx)) continue;
+    beginCase(idx); ElemReg::reset();
+    Rng r(opts.seed, 3005, (u64)idx);
+    switch (idx % 3) { case 0: cnt("big_cases_list"); bigListCase(lck, r, maxN); break; case 1: cnt("big_cases_array"); bigArrayCase(ack, r, maxN); break; default: cnt("big_cases_plist"); bigPoolCase(pck, r, maxN); break; }
+  }
 }
 
 // ================================================================ drivers
@@ -674,6 +1098,7 @@ int main(int argc, char** argv) {
   else if (!strcmp(m, "array-grow")) arrayGrow();
   else if (!strcmp(m, "sort-exh")) sortExhaustive(opts.scale > 1 ? (int)opts.scale : 8);
   else if (!strcmp(m, "sort-rand")) sortRandom();
+  else if (!strcmp(m, "big")) bigHistories();
   else harnessBug("unknown mode %s", m);
 #ifndef VERIF_NO_PRIVATE
   cnt("structure_walks", g_walks); cnt("walks_with_block_sizes", g_sizedWalks);
